@@ -79,11 +79,13 @@ theorem C18_twoColumns_partial (ed : Editor Int) (p : Int) (l r : List Int) (g w
       ed.insertTwoColumnsOpts cxA p l r g w pct o = .error .repeatNeg :=
   insertTwoColumnsOpts_ok_or cxA_Sane ed p l r g w pct o
 
-/-- InsertTwoColumnsOpts is total on arbitrary code-point texts for every gap ≥ 0, every width, every
-percentage (the wrapped left lines fit their column by sub-additivity, so the spacer count is ≥ 0) -/
-theorem C18_twoColumns (ed : Editor Int) (p : Int) (l r : List Int) (g w : Int) (pct : Pct) (o : Options Int)
-    (hg : 0 ≤ g) : ∃ x, ed.insertTwoColumnsOpts cxA p l r g w pct o = .ok x :=
-  insertTwoColumnsOpts_total_A ed p l r g w pct o hg
+/-- InsertTwoColumnsOpts is total on arbitrary code-point texts for EVERY minimum distance (a negative
+one is taken as 0 — before repair D17 it panicked with a negative `strings.Repeat` count, and this
+theorem was provable only under `0 ≤ g`), every width, every percentage, every position, every
+option combination -/
+theorem C18_twoColumns (ed : Editor Int) (p : Int) (l r : List Int) (g w : Int) (pct : Pct) (o : Options Int) :
+    ∃ x, ed.insertTwoColumnsOpts cxA p l r g w pct o = .ok x :=
+  insertTwoColumnsOpts_total_A_any ed p l r g w pct o
 
 /-- at cluster level (one token per cluster) two-column layout is total outright -/
 theorem C18_twoColumns_clusters {α : Type} [DecidableEq α] (cx : Ctx α)
